@@ -17,7 +17,7 @@ def sh(cmd, cwd=None, timeout=3600):
 def main():
     pid, letter = sys.argv[1], sys.argv[2]
     extra = sys.argv[3:]
-    seed = f"/tmp/seed_{pid}/SEED"
+    seed = f"/tmp/seed2_{pid}/SEED" if letter in ("C", "D") else f"/tmp/seed_{pid}/SEED"
     patch = f"{seed}/{letter}.diff"
     demo = f"{seed}/{letter}_demo.rs"
     kept = f"/verif/seeded/{pid}-{letter}"
